@@ -18,7 +18,11 @@
 #endif
 #include <cstdlib>
 #include <cstring>
+#include <deque>
+#include <forward_list>
 #include <functional>
+#include <iterator>
+#include <list>
 #include <stdexcept>
 #include <string>
 #include <vector>
@@ -118,6 +122,56 @@ void dump(const char *name, const V &v) {
   g_out += "\n";
 }
 
+// ---- range sources of every iterator category (the category selects different code before C++17): the same values are presented through
+// std::vector iterators, raw pointers, std::list, std::forward_list, a std::deque positioned across one of its blocks, reverse iterators over a
+// reversed copy (random access but not contiguous) and move iterators. `op` is a functor with a template operator()(first, last).
+template <class T, class Op>
+void feed(unsigned kind, const std::vector<T> &src, Op op) {
+  switch (kind % 7) {
+    case 0: op(src.begin(), src.end()); break;
+    case 1: { const T *b = src.empty() ? static_cast<const T *>(nullptr) : &src[0]; op(b, b + src.size()); break; }
+    case 2: { std::list<T> l(src.begin(), src.end()); op(l.begin(), l.end()); break; }
+    case 3: { std::forward_list<T> l(src.begin(), src.end()); op(l.begin(), l.end()); break; }
+    case 4: {
+      std::deque<T> d;
+      const size_t per_block = sizeof(T) < 512 ? 512 / sizeof(T) : 1;
+      for (size_t i = 0; i + 1 < per_block; ++i) d.push_back(T(777));
+      for (size_t i = 0; i < src.size(); ++i) d.push_back(src[i]);
+      op(d.begin() + static_cast<std::ptrdiff_t>(per_block - 1), d.end());
+      break;
+    }
+    case 5: { std::vector<T> r(src.rbegin(), src.rend()); op(r.rbegin(), r.rend()); break; }
+    default: { std::vector<T> c(src); op(std::make_move_iterator(c.begin()), std::make_move_iterator(c.end())); break; }
+  }
+}
+template <class V>
+struct InsertRangeOp {
+  V *v; unsigned pos; long *at;
+  template <class It> void operator()(It f, It l) const { typename V::iterator it = v->insert(v->begin() + pos, f, l); *at = static_cast<long>(it - v->begin()); }
+};
+template <class V>
+struct AssignRangeOp {
+  V *v;
+  template <class It> void operator()(It f, It l) const { v->assign(f, l); }
+};
+template <class V>
+struct CtorRangeOp {
+  V *out;
+  template <class It> void operator()(It f, It l) const { V c(f, l); *out = c; }
+};
+template <class FS>
+struct SetInsertRangeOp {
+  FS *s;
+  template <class It> void operator()(It f, It l) const { s->insert(f, l); }
+};
+#ifdef AMC_NONSTD_FEATURES
+template <class V>
+struct AppendRangeOp {
+  V *v;
+  template <class It> void operator()(It f, It l) const { v->append(f, l); }
+};
+#endif
+
 // ---------------------------------------------------------------- standard vector API
 template <class V, unsigned MAXLEN>
 void vector_script(const char *tname, Rng &rng, int nops) {
@@ -142,7 +196,7 @@ void vector_script(const char *tname, Rng &rng, int nops) {
       case 4: if (room) { T x(next_value++); typename V::iterator it = v.insert(v.begin() + pos, x); put(" at=%ld", static_cast<long>(it - v.begin())); } break;
       case 5: if (room) { typename V::iterator it = v.insert(v.begin() + pos, T(next_value++)); put(" at=%ld", static_cast<long>(it - v.begin())); } break;
       case 6: { unsigned n = rng.below(4); if (n <= room) { T x(next_value++); typename V::iterator it = v.insert(v.begin() + pos, static_cast<SizeT>(n), x); put(" at=%ld", static_cast<long>(it - v.begin())); } break; }
-      case 7: { unsigned n = rng.below(4); if (n <= room) { std::vector<T> src; for (unsigned k = 0; k < n; ++k) src.push_back(T(next_value++)); typename V::iterator it = v.insert(v.begin() + pos, src.begin(), src.end()); put(" at=%ld", static_cast<long>(it - v.begin())); } break; }
+      case 7: { unsigned n = rng.below(5); unsigned kind = rng.below(7); if (n <= room) { std::vector<T> src; for (unsigned k = 0; k < n; ++k) src.push_back(T(next_value++)); long at = -1; InsertRangeOp<V> o = {&v, pos, &at}; feed(kind, src, o); put(" at=%ld", at); } break; }
       case 8: if (room >= 2) { T a(next_value++), b(next_value++); typename V::iterator it = v.insert(v.begin() + pos, {a, b}); put(" at=%ld", static_cast<long>(it - v.begin())); } break;
       case 9: if (sz) v.pop_back(); break;
       case 10: if (sz) { unsigned p = rng.below(sz); typename V::iterator it = v.erase(v.begin() + p); put(" at=%ld", static_cast<long>(it - v.begin())); } break;
@@ -150,7 +204,7 @@ void vector_script(const char *tname, Rng &rng, int nops) {
       case 12: { unsigned n = rng.below(MAXLEN + 1); v.resize(static_cast<SizeT>(n)); break; }
       case 13: { unsigned n = rng.below(MAXLEN + 1); T x(next_value++); v.resize(static_cast<SizeT>(n), x); break; }
       case 14: { unsigned n = rng.below(MAXLEN + 1); T x(next_value++); v.assign(static_cast<SizeT>(n), x); break; }
-      case 15: { unsigned n = rng.below(MAXLEN + 1); std::vector<T> src; for (unsigned k = 0; k < n; ++k) src.push_back(T(next_value++)); v.assign(src.begin(), src.end()); break; }
+      case 15: { unsigned n = rng.below(MAXLEN + 1); unsigned kind = rng.below(7); std::vector<T> src; for (unsigned k = 0; k < n; ++k) src.push_back(T(next_value++)); if (rng.below(3) == 0) { CtorRangeOp<V> o = {&v}; feed(kind, src, o); } else { AssignRangeOp<V> o = {&v}; feed(kind, src, o); } break; }
       case 16: v.clear(); break;
       case 17: v.reserve(static_cast<SizeT>(rng.below(MAXLEN + 1))); v.shrink_to_fit(); break;
       case 18: v.swap(w); break;
@@ -273,7 +327,7 @@ void flatset_script(const char *tname, Rng &rng, int nops, unsigned maxlen) {
       case 2: if (sz < maxlen) { std::pair<typename FS::iterator, bool> r = s.emplace(key); put(" ins=%ld at=%ld", r.second, static_cast<long>(r.first - s.begin())); } break;
       case 3: if (sz < maxlen) { T x(key); typename FS::iterator it = s.insert(s.begin() + rng.below(sz + 1), x); put(" at=%ld", static_cast<long>(it - s.begin())); } break;
       case 4: if (sz < maxlen) { typename FS::iterator it = s.emplace_hint(s.begin() + rng.below(sz + 1), key); put(" at=%ld", static_cast<long>(it - s.begin())); } break;
-      case 5: { unsigned n = rng.below(5); if (sz + n <= maxlen) { std::vector<T> src; for (unsigned k = 0; k < n; ++k) src.push_back(T(static_cast<int>(rng.below(20)))); s.insert(src.begin(), src.end()); } break; }
+      case 5: { unsigned n = rng.below(5); unsigned kind = rng.below(7); if (sz + n <= maxlen) { std::vector<T> src; for (unsigned k = 0; k < n; ++k) src.push_back(T(static_cast<int>(rng.below(20)))); SetInsertRangeOp<FS> o = {&s}; feed(kind, src, o); } break; }
       case 6: { T x(key); put(" erased=%ld", static_cast<long>(s.erase(x))); break; }
       case 7: if (sz) { typename FS::iterator it = s.erase(s.begin() + rng.below(sz)); put(" at=%ld", static_cast<long>(it - s.begin())); } break;
       case 8: { unsigned f = rng.below(sz + 1), l = f + rng.below(sz - f + 1); typename FS::iterator it = s.erase(s.begin() + f, s.begin() + l); put(" at=%ld", static_cast<long>(it - s.begin())); break; }
@@ -346,7 +400,7 @@ void extras_script(const char *tname, Rng &rng, int nops) {
     unsigned sz = static_cast<unsigned>(v.size());
     put("op %ld:", op);
     switch (op) {
-      case 0: { unsigned n = rng.below(4); if (sz + n <= MAXV) { std::vector<T> src; for (unsigned k = 0; k < n; ++k) src.push_back(T(next_value++)); v.append(src.begin(), src.end()); } break; }
+      case 0: { unsigned n = rng.below(5); unsigned kind = rng.below(7); if (sz + n <= MAXV) { std::vector<T> src; for (unsigned k = 0; k < n; ++k) src.push_back(T(next_value++)); AppendRangeOp<V> o = {&v}; feed(kind, src, o); } break; }
       case 1: { unsigned n = rng.below(4); if (sz + n <= MAXV) v.append(static_cast<SizeT>(n)); break; }
       case 2: { unsigned n = rng.below(4); if (sz + n <= MAXV) { T x(next_value++); v.append(static_cast<SizeT>(n), x); } break; }
       case 3: if (sz + 2 <= MAXV) { T a(next_value++), b(next_value++); v.append({a, b}); } break;
